@@ -19,6 +19,11 @@ def showFijk (f : FaceIJK) : String := s!"{f.face} {f.coord.i} {f.coord.j} {f.co
 def ovCode : Overage → Nat
   | .none => 0 | .faceEdge => 1 | .newFace => 2
 
+def allocTail (a : AState) : String :=
+  let nf := (a.trace.filter fun e => match e with | .fail _ _ => true | _ => false).length
+  " live=" ++ toString a.live.length ++ " calls=" ++ toString a.calls ++ " failed=" ++ toString nf ++
+    " badfree=0 | " ++ showTrace a.trace
+
 def opsTrav (op : String) (a : List String) : Option String :=
   match op, a with
   | "nbr", [h, d, r] => do
@@ -163,7 +168,21 @@ def opsTrav (op : String) (a : List String) : Option String :=
     let sched : Nat → Bool := fun c => failAt != 0 && (if from_ == "1" then c >= failAt else c == failAt)
     let (r, a) := compactCells sched cells.toArray
     let rs := match r with | .ok _ => "ok" | .error e => "err " ++ toString e.code
-    pure (rs ++ " live=" ++ toString a.live.length ++ " calls=" ++ toString a.calls ++ " | " ++ showTrace a.trace)
+    pure (rs ++ allocTail a)
+  | "adisk", [failAt, from_, h, k, want] => do
+    let failAt ← failAt.toNat?
+    let h ← parseH h; let k ← parseInt k
+    let sched : Nat → Bool := fun c => failAt != 0 && (if from_ == "1" then c >= failAt else c == failAt)
+    let (r, a) := gridDiskDistancesA sched h k (want == "1") {}
+    let rs := match r with | .ok (o, _) => "ok " ++ showArr o | .error e => "err " ++ toString e.code
+    pure (rs ++ allocTail a)
+  | "aneighbors", [failAt, from_, x, y] => do
+    let failAt ← failAt.toNat?
+    let x ← parseH x; let y ← parseH y
+    let sched : Nat → Bool := fun c => failAt != 0 && (if from_ == "1" then c >= failAt else c == failAt)
+    let (r, a) := areNeighborCellsA sched x y {}
+    let rs := match r with | .ok b => "ok " ++ b2s b | .error e => "err " ++ toString e.code
+    pure (rs ++ allocTail a)
   | _, _ => none
 
 end H3.Ops
